@@ -137,3 +137,169 @@ Proof.
     apply (Hoffs "DT_JMPREL"). cbn; tauto. }
   repeat (apply Forall_app; split); assumption.
 Qed.
+
+Lemma reloc_ok_behind f is64 img ps es tptr tsz tent ent name :
+  reloc_ok is64 img ps es tptr tsz tent ent = true ->
+  name_is (f_dtab f) tptr name -> name_is (f_ptab f) PT_LOAD "PT_LOAD" ->
+  off_behind (ehdr_size is64) (snd (get_table_offset f ps (map (raw_of (f_dtab f)) es) name)).
+Proof.
+  intros Hr Hn Hp. rewrite (get_table_offset_spec f ps es tptr name Hn). unfold reloc_ok in Hr.
+  destruct (first_val tptr es) as [ptr|]; [|exact I].
+  destruct (first_val tsz es) as [sz|]; [|discriminate]. destruct (first_val tent es) as [en|]; [|discriminate].
+  apply andb_prop in Hr. destruct Hr as [_ Hr].
+  destruct (ptr_ok is64 img ps ptr sz) as [off|] eqn:Ep; [|discriminate].
+  destruct (ptr_ok_inv _ _ _ _ _ _ Ep) as [Hmap [Hnz [_ [Hoff _]]]]. cbn [snd].
+  destruct (Z.eqb_spec ptr 0); [contradiction|].
+  rewrite (address_offset_first f ps ptr sz off Hp Hmap). exact Hoff.
+Qed.
+
+Ltac dC C := destruct C as [c_open0 c_open'0 c_img0 c_img'0 c_le'0 c_64'0 c_mach'0 c_dtab0 c_dtab'0 c_pt0 c_sht0 c_pt'0 c_sht'0 c_same0 c_ehpos0 c_ss0 c_ss'0 c_ps0 c_ps'0 c_sec0 c_str0 c_strty0 c_seg0 c_fs0 c_segoff0 c_secoff0 c_es_sec0 c_es_seg0 c_sp0 c_spnz0 c_spmap0 c_stroff0 c_strlen0 c_strend0 c_strings0 c_eh0 c_640 c_le0 c_ptab'0 c_shdr_nth0 c_ptrs0 c_rel0 c_rela0 c_relr0 c_jmprel0].
+
+(* ---------- the three Dynamic objects of a consistent image and its stripped form ---------- *)
+Section with_ctx.
+Variables (img img' : list Z) (d : dyninfo) (f f' : elf) (sp : Z).
+Hypothesis C : vctx img img' d f f' sp.
+Let sec := di_sec d.
+Let str := di_str d.
+Let seg := di_seg d.
+Let ps := di_phdrs d.
+Let ts := map (raw_of (f_dtab f)) (di_entries d).
+Let st_sec := StSection (sh_offset str) true.
+Let dy_sec := mkDyn (sh_offset sec) false (Some st_sec).
+Let dy_seg := mkDyn (p_offset seg) false (if sh_offset sec =? p_offset seg then Some st_sec else None).
+Let dy_seg' := mkDyn (p_offset seg) false None.
+
+Lemma ctx_sec_type : sh_type sec = SHT_DYNAMIC.
+Proof. dC C. pose proof (filter_singleton_in _ _ _ c_sec0) as H. unfold sec. clear - H. lia. Qed.
+
+Lemma ctx_null : name_is (f_dtab f) DT_NULL "DT_NULL".
+Proof. dC C. apply (dt_name _ _ _ _ _ c_dtab0). cbn; tauto. Qed.
+
+Lemma ctx_dtab_eq : f_dtab f' = f_dtab f.
+Proof. dC C. congruence. Qed.
+
+Lemma ctx_dy_sec : the_dynamic_section f = Ok dy_sec.
+Proof.
+  pose proof ctx_sec_type as Hty. dC C. unfold the_dynamic_section. rewrite c_ss0. cbn [bind].
+  rewrite (filter_dynamic_sections f c_sht0), c_sec0. cbn [first_res bind].
+  apply (dynamic_section_init_ok f c_sht0); assumption.
+Qed.
+
+Lemma ctx_iter_segments : iter_segments f = Ok ps.
+Proof.
+  dC C. unfold iter_segments. rewrite c_ps0. cbn [bind].
+  rewrite (make_segments_full f 0 0 c_sht0 _ _ _ c_ss0 c_sec0 c_str0 c_strty0). reflexivity.
+Qed.
+Lemma ctx_iter_segments' : iter_segments f' = Ok ps.
+Proof.
+  dC C. unfold iter_segments. rewrite c_ps'0. cbn [bind].
+  rewrite (make_segments_stripped f' c_ss'0). reflexivity.
+Qed.
+
+Lemma ctx_dy_seg : the_dynamic_segment f = Ok dy_seg.
+Proof.
+  pose proof ctx_sec_type as Hty. pose proof ctx_iter_segments as Hit. dC C.
+  unfold the_dynamic_segment. rewrite Hit. cbn [bind].
+  unfold ps. rewrite (filter_dynamic_segments f c_pt0). destruct (first_where_filter _ _ _ c_seg0) as [r ->].
+  cbn [first_res bind]. unfold dynamic_segment_init. rewrite c_ss0. cbn [bind].
+  rewrite (proj2 (find_dynsec_strtab_one f c_sht0 (di_seg d) _ _ Hty c_strty0 c_str0 _) c_sec0). cbn [bind].
+  replace (p_filesz (di_seg d) =? 0) with false by (clear - c_fs0; lia). reflexivity.
+Qed.
+Lemma ctx_dy_seg' : the_dynamic_segment f' = Ok dy_seg'.
+Proof.
+  pose proof ctx_iter_segments' as Hit. dC C.
+  unfold the_dynamic_segment. rewrite Hit. cbn [bind].
+  unfold ps. rewrite (filter_dynamic_segments f' c_pt'0). destruct (first_where_filter _ _ _ c_seg0) as [r ->].
+  cbn [first_res bind]. unfold dynamic_segment_init. rewrite c_ss'0. cbn [bind find_dynsec_strtab].
+  replace (p_filesz (di_seg d) =? 0) with false by (clear - c_fs0; lia). reflexivity.
+Qed.
+
+Lemma ctx_raw_sec : raw_tags f dy_sec = Ok ts.
+Proof.
+  pose proof ctx_null as Hn. dC C. apply (raw_tags_read f dy_sec _ eq_refl Hn); cbn [dy_sec dy_off].
+  - clear - c_ehpos0 c_secoff0. unfold sec. lia.
+  - rewrite c_img0. assumption.
+Qed.
+Lemma ctx_raw_seg : raw_tags f dy_seg = Ok ts.
+Proof.
+  pose proof ctx_null as Hn. dC C. apply (raw_tags_read f dy_seg _ eq_refl Hn); cbn [dy_seg dy_off].
+  - clear - c_ehpos0 c_segoff0. unfold seg. lia.
+  - rewrite c_img0. assumption.
+Qed.
+Lemma ctx_raw_seg' : raw_tags f' dy_seg' = Ok ts.
+Proof.
+  pose proof ctx_null as Hn. pose proof ctx_dtab_eq as Hd. pose proof (ctx_es_seg' _ _ _ _ _ _ C) as He.
+  dC C. unfold ts. rewrite <- Hd. rewrite <- Hd in Hn.
+  apply (raw_tags_read f' dy_seg' _ eq_refl Hn); cbn [dy_seg' dy_off].
+  - clear - c_ehpos0 c_segoff0. unfold seg. lia.
+  - exact He.
+Qed.
+
+(* the string table object each of them ends up with *)
+Lemma ctx_st_pointed g : f_dtab g = f_dtab f -> name_is (f_ptab g) PT_LOAD "PT_LOAD" ->
+  forall off, get_stringtable g ps ts (mkDyn off false None) = Ok (Some (StDynamic (sh_offset str))).
+Proof.
+  intros Hd Hp off. dC C. unfold get_stringtable. cbn [dy_str]. unfold ts. rewrite <- Hd.
+  rewrite (get_table_offset_spec g ps _ DT_STRTAB "DT_STRTAB")
+    by (rewrite Hd; apply (dt_name _ _ _ _ _ c_dtab0); cbn; tauto).
+  rewrite c_sp0. cbn [snd]. destruct (Z.eqb_spec sp 0); [contradiction|].
+  rewrite (address_offset_first g ps sp _ _ Hp c_spmap0). reflexivity.
+Qed.
+Lemma ctx_st_seg : exists st, get_stringtable f ps ts dy_seg = Ok (Some st).
+Proof.
+  unfold dy_seg. destruct (sh_offset sec =? p_offset seg).
+  - eexists. reflexivity.
+  - eexists. apply ctx_st_pointed; [reflexivity|]. dC C. apply c_pt0. cbn; tauto.
+Qed.
+Lemma ctx_st_seg' : exists st, get_stringtable f' ps ts dy_seg' = Ok (Some st).
+Proof.
+  eexists. apply ctx_st_pointed; [apply ctx_dtab_eq|]. dC C. apply c_pt'0. cbn; tauto.
+Qed.
+
+(* the relocation tables *)
+Lemma ctx_rel_behind : forall name, In name ["DT_REL"; "DT_RELA"; "DT_RELR"; "DT_JMPREL"] ->
+  off_behind (ehdr_size (f_is64 f)) (snd (get_table_offset f ps ts name)).
+Proof.
+  dC C. assert (Hp : name_is (f_ptab f) PT_LOAD "PT_LOAD") by (apply c_pt0; cbn; tauto).
+  assert (Hn : forall val name, In (val, name) spec_dt_names -> name_is (f_dtab f) val name)
+    by (intros val name H; apply (dt_name _ _ _ _ _ c_dtab0 H)).
+  intros name [<-|[<-|[<-|[<-|[]]]]].
+  - apply (reloc_ok_behind f _ _ _ _ _ _ _ _ _ c_rel0); [apply Hn; cbn; tauto|exact Hp].
+  - apply (reloc_ok_behind f _ _ _ _ _ _ _ _ _ c_rela0); [apply Hn; cbn; tauto|exact Hp].
+  - apply (reloc_ok_behind f _ _ _ _ _ _ _ _ _ c_relr0); [apply Hn; cbn; tauto|exact Hp].
+  - apply (reloc_ok_behind f _ _ _ _ _ _ _ _ _ c_jmprel0); [apply Hn; cbn; tauto|exact Hp].
+Qed.
+
+Lemma ctx_view_relocs_seg : view_relocs f dy_seg = view_relocs f dy_sec.
+Proof.
+  destruct ctx_st_seg as [st Hst]. unfold view_relocs.
+  rewrite ctx_raw_sec, ctx_raw_seg, ctx_iter_segments. cbn [bind].
+  rewrite (get_relocation_tables_same f f ps ts dy_seg dy_sec st st_sec eq_refl eq_refl Hst eq_refl). reflexivity.
+Qed.
+
+Lemma ctx_view_relocs_seg' : view_relocs f' dy_seg' = view_relocs f dy_sec.
+Proof.
+  destruct ctx_st_seg' as [st Hst]. unfold view_relocs.
+  rewrite ctx_raw_sec, ctx_raw_seg', ctx_iter_segments, ctx_iter_segments'. cbn [bind].
+  pose proof ctx_rel_behind as Hb. dC C.
+  rewrite (get_relocation_tables_same f' f ps ts dy_seg' dy_sec st st_sec c_64'0 c_ptab'0 Hst eq_refl).
+  destruct (get_relocation_tables f ps ts dy_sec) as [L|e] eqn:EL; [|reflexivity]. cbn [bind]. f_equal.
+  pose proof (grt_behind _ _ _ _ _ _ EL Hb) as HF. rewrite Forall_forall in HF.
+  apply map_ext_in. intros t Ht. f_equal. symmetry.
+  apply (reltab_entries_same f f' (ehdr_size (f_is64 f))); try (symmetry; assumption).
+  - rewrite c_img0, c_img'0. exact c_same0.
+  - clear - c_ehpos0. lia.
+  - apply HF. exact Ht.
+Qed.
+End with_ctx.
+
+Theorem views_agree_relocs img img' :
+  consistent_b img = true -> stripped_of_b img img' = true ->
+  segment_relocs img' = section_relocs img /\ segment_relocs img = section_relocs img.
+Proof.
+  intros Hc Hst. destruct (describe img) as [d|] eqn:Hd; [|unfold consistent_b in Hc; rewrite Hd in Hc; discriminate].
+  destruct (consistent_ctx _ _ _ Hd Hc Hst) as [f [f' [sp C]]].
+  unfold segment_relocs, section_relocs. rewrite (c_open _ _ _ _ _ _ C), (c_open' _ _ _ _ _ _ C). cbn [bind].
+  rewrite (ctx_dy_sec _ _ _ _ _ _ C), (ctx_dy_seg _ _ _ _ _ _ C), (ctx_dy_seg' _ _ _ _ _ _ C). cbn [bind].
+  split; [apply (ctx_view_relocs_seg' _ _ _ _ _ _ C) | apply (ctx_view_relocs_seg _ _ _ _ _ _ C)].
+Qed.
